@@ -353,3 +353,73 @@ func VerifC09Brackets() {
 	}
 	verifCover("C09/brackets/end")
 }
+
+// c09ShapeNorm: tree shape with the implicit pipe (SHORT_PIPE) and the explicit one (PIPE) identified.
+func c09ShapeNorm(n *ExpressionNode) string {
+	if n == nil {
+		return "_"
+	}
+	t := n.Operation.OperationType.Type
+	if t == "SHORT_PIPE" {
+		t = "PIPE"
+	}
+	if n.LHS == nil && n.RHS == nil {
+		return t + ":" + n.Operation.StringValue
+	}
+	return "(" + c09ShapeNorm(n.LHS) + " " + t + " " + c09ShapeNorm(n.RHS) + ")"
+}
+
+// things a path or index may follow directly (postfix traversal after paths, variables, functions and brackets)
+var c09Postfixable = []string{".a", ".a[0]", "(.a)", "[.a]", "{\"k\": .a}", "$v", "parent", "parent(2)", "to_entries", "sort", "reverse", "path", "splitDoc",
+	"map(.)", "select(.)", "sort_by(.)", "pick([\"a\"])", "with_entries(.)", "omit([\"a\"])", "keys", "explode(.)", "sort_keys(.)", "del(.x)", "flatten", "unique", "group_by(.)"}
+
+// which of them yq documents as accepting a directly attached path (the others need an explicit pipe)
+var c09PostfixDocumented = map[string]bool{".a": true, ".a[0]": true, "(.a)": true, "[.a]": true, "{\"k\": .a}": true, "$v": true, "parent": true, "parent(2)": true,
+	"to_entries": true, "sort": true, "reverse": true, "path": true, "splitDoc": true, "map(.)": true, "select(.)": true, "sort_by(.)": true, "pick([\"a\"])": true,
+	"with_entries(.)": true, "omit([\"a\"])": true, "explode(.)": true, "sort_keys(.)": true, "group_by(.)": true}
+
+// VerifC09PostTraverse: `X.name` and `X[0]` mean `X | .name` and `X | .[0]`: both spellings are evaluated on the
+// same node of a concrete document and must give the same results (or both fail).
+func VerifC09PostTraverse() {
+	InitExpressionParser()
+	x := c09Postfixable[verifChoice("x", len(c09Postfixable))]
+	if !c09PostfixDocumented[x] {
+		return
+	}
+	suffix := []string{".name", "[0]", ".[\"name\"]", ".name.deeper"}[verifChoice("suffix", 4)]
+	if suffix == "[0]" && (x == "parent" || x == "parent(2)" || x == "$v" || x == "to_entries" || x == "sort" || x == "reverse" || x == "path" || x == "splitDoc") {
+		return // a bare word takes an index only through `.[0]`
+	}
+	layout := []string{"", " ", "\n", " # c\n"}[verifChoice("layout", 4)]
+	if layout != "" && suffix[0] == '[' {
+		return // `X [0]` is a collect operator after X, a different expression
+	}
+	explicit := "(" + x + ") | ." + suffix
+	if suffix[0] == '.' {
+		explicit = "(" + x + ") | " + suffix
+	}
+	build := func() *CandidateNode {
+		return vYaml("a:\n  - name: {deeper: 1}\n    a: {name: {deeper: 3}, x: 2}\n    x: [4, 5]\nname: {deeper: 9}\n")
+	}
+	run := func(form string) (string, bool) {
+		e, err := ExpressionParser.ParseExpression(".a[0] | (.a as $v | (" + form + "))")
+		if err != nil {
+			return "parse-error", false
+		}
+		res, err := vEval(e, build())
+		if err != nil {
+			return "error", true
+		}
+		return vDumpList(res), true
+	}
+	want, okW := run(explicit)
+	got, okG := run(x + layout + suffix)
+	label := "x=" + x + " suffix=" + suffix
+	verifAssert(okW, "C09/explicit-form-rejected "+label)
+	verifAssert(okG, "C09/postfix-traversal-rejected "+label)
+	if okW && okG {
+		verifObserve("got", got)
+		verifAssert(got == want, "C09/postfix-traversal-means-something-else "+label)
+	}
+	verifCover("C09/postfix/end")
+}
